@@ -92,6 +92,13 @@ func (c *FileBackupClient) PosMap(ctx context.Context) (map[string]ltx.Pos, erro
 		if err != nil {
 			return nil, err
 		}
+
+		// A directory without a transaction file holds no database: an upload
+		// that failed before its first file leaves one behind. Reporting it
+		// would make a primary that lacks the database try to restore it.
+		if pos.IsZero() {
+			continue
+		}
 		m[ent.Name()] = pos
 	}
 
